@@ -108,6 +108,27 @@ class Picks(_Sys):
         m.trace.append('all:' + ','.join(a.id for a in self.call(env.get_agents)))
 
 
+class LatePick(_Sys):
+    """One of several systems that another system registers in the middle of a timestep; draws once per turn."""
+
+    def execute(self):
+        m = self.model
+        a = self.call(m.environment.get_random_agent)
+        m.trace.append(f'late:{self.id}:{a.id if a is not None else None}:{m.random.randint(0, 999)}')
+
+
+class Spawner(_Sys):
+    """At timestep 1 registers a batch of systems - same priority, ids that are plain words - from inside its own turn (a model that
+    switches on extra behaviour once it has warmed up).  Their turn order follows the order of the add_system calls, like any other."""
+
+    def execute(self):
+        m = self.model
+        if m.systems.timestep == 1:
+            for name in ('picker-gamma', 'picker-alpha', 'picker-epsilon', 'picker-beta', 'picker-delta'):
+                m.systems.add_system(LatePick(name, m, priority=0))
+            m.trace.append('spawned')
+
+
 class DigestCollector(collectors.Collector):
     """Holds the digest record that batch_run returns; the record is written by the Finale system."""
 
@@ -166,6 +187,8 @@ class TraceModel(core.Model):
             self.systems.add_system(Deaths('deaths', self, priority=2))
         if 'm' in mix:
             self.systems.add_system(Movers('movers', self, priority=1))
+        if cfg.get('spawn'):
+            self.systems.add_system(Spawner('spawner', self, priority=4))
         self.systems.add_system(Picks('picks', self, priority=0))
         self.energy_collector = collectors.AgentCollector(self, lambda a: a[Energy].e if Energy in a else None, includeTimstep=True,
                                                           id='energy')
